@@ -223,7 +223,7 @@ def check(prop: str, tier: str, seed: int) -> int:
                        "projection (eco-mode groups: all fields)", "TLC, SANY and the CommunityModules are trusted"]
     jobs = []
     L = 3 if quick else 4
-    nseq = 10 if quick else 60
+    nseq = 10 if quick else 40
     for (a, b) in PAIRS:
         for _ in range(nseq):
             l1, l2 = rnd.randint(1, L), rnd.randint(1, L)
